@@ -25,6 +25,7 @@ EXPLANATION = (
     "reaches a list that some query probes (T_route, shared with C04)."
     " Later additions: (6) what the request tokenizer emits, as truth tables of its two decision regions walked edge by edge (the `*` tests apply to filter text only: request URLs are tokenized with wildcards = false), the token cap is at least the 127 of the property's premise; (7) de-duplication identity: insert_dup's ordering / equality reads the stored line hash; the public entry points between the parsers and the stores drop no rule, and the structural id (which ignores the tag) is used for $badfilter matching only; (8) visit-all loops (list construction, probing) contain no truncating iterator adapter and no `break`."
     " Round 6: the functions that file rules into the engine's lists call nothing that takes elements out of a collection again (retain / dedup / truncate / remove / clear)."
+    ' Round 8: every list that can hold tagged rules is probed with the enabled tag set (C07.1 borrowed).'
 )
 NOT_DECIDED = ("Verdict equality on concrete (list, request) pairs; the precedence combination over concrete hits "
                "(skeleton: C04.2); the 127-token truncation; 64-bit hash collisions; each leaf matcher (C02).")
